@@ -12,7 +12,7 @@ from glue.core.util import split_component_view
 from glue.core.registry import Registry
 from glue.core.exceptions import IncompatibleAttribute
 from glue.core.message import SubsetDeleteMessage, SubsetUpdateMessage
-from glue.core.decorators import memoize
+from glue.core.decorators import memoize, cache_generation
 from glue.core.visual import VisualAttributes
 from glue.config import settings
 from glue.utils import (categorical_ndarray, combine_slices, floodfill, iterate_chunks,
@@ -1714,9 +1714,6 @@ class FloodFillSubsetState(MaskSubsetState):
         ``start_value`` is the value of the data at ``start_coords``.
     """
 
-    # TODO: we need to recompute the mask if the numerical values of the
-    # data changes.
-
     def __init__(self, data, att, start_coords, threshold):
 
         if len(start_coords) != data.ndim:
@@ -1785,7 +1782,10 @@ class FloodFillSubsetState(MaskSubsetState):
 
     @property
     def _hash(self):
-        return self.data, self.att, self.start_coords, self.threshold, self.cids
+        # The cache generation changes whenever numerical values or links
+        # change, in which case the mask has to be re-computed
+        return (self.data, self.att, self.start_coords, self.threshold, self.cids,
+                cache_generation())
 
     @property
     def mask(self):
